@@ -135,13 +135,29 @@ def build_universe(seed, tier):
     unit1 = Array(Prim('unit'), 1)
     # (the 12^4-tuple itself, as a value type, makes `serialize_zero` of an unoptimized build a 40 MB function with an 8 MB
     # frame — every `max_size_of` of its 20736 leaves is `#[inline(always)]` — so it is used as a marker only)
-    st += [nest(Prim('u16'), 32), cftree(7), Phantom(t12), z11, kd5z,
+    pt12 = Phantom(t12)
+    pt12.known = ('C01', 'C02', 'C06', 'C10')
+    st += [nest(Prim('u16'), 32), cftree(7), pt12, z11, kd5z,
            Adt(byname['KP2'], [Seq('vec', Adt(byname['KW1'], [unit1], [])), Str()], [])]
     # round 6: big items and big files. `heavy` types get only their empty value from the generic value generator; the `big`
     # families build the large values explicitly (an item above 1 MiB; two blocks above 64 KiB, the second starting beyond
     # byte 65536; a file above 2 MiB)
     hv = Seq('vec', Array(Prim('u64'), 131073)); hv.heavy = True
     st += [hv, Adt(byname['KP2'], [Seq('vec', Prim('u64')), Seq('vec', Prim('u8'))], []), Seq('vec', Prim('u64'))]
+    # round 7: const parameters before type parameters; a byte-aligned zero-copy type whose unit (4) is larger than its
+    # alignment (1), alone, behind a string in a deep structure (read through deserialize_eps_zero at any position), in a
+    # vector; a marker whose type name is longer than 65 535 bytes and mostly made of two-byte characters
+    st += [Adt(byname['KCF1'], [Seq('vec', Prim('u16'))], [3, 1]), Adt(byname['KCF1'], [Str()], [0, 0]), Adt(byname['KCF2'], [Str()], [7]),
+           Adt(byname['KCF3'], [], [2])]
+    r4 = Tuple(Range('t', Array(Prim('u8'), 4)), 2)
+    st += [r4, Adt(byname['KD5'], [r4], []), Seq('vec', r4), Adt(byname['KD5'], [Range('ti', Array(Prim('u8'), 2))], [])]
+    # (byte 65 535 of the name of the second one falls inside a character, of the first one between two characters)
+    for na in ([d for d in sd if d.name.startswith('K\u00e9')][0], [d for d in sd if d.name.startswith('KX\u00e9')][0]):
+        t3 = Adt(na, [], [])
+        for _ in range(3): t3 = Tuple(t3, 12)
+        pt3 = Phantom(t3)
+        pt3.known = ('C01', 'C02', 'C06')       # (names of half a megabyte: exercised where the length of the name matters)
+        st += [pt3]
     # round 6: twins (same identifier and same `type_name`, different definitions), used one after the other in one process
     tw = twin_defs('K')
     sd = sd + tw
